@@ -157,8 +157,10 @@ def _solve_case(case, spl, ps):
     def prog(rank):
         comm = MPI.COMM_WORLD
         phi, rho = _grids(MPI, comm, eta, nprocs)
+        # a coefficient may arrive already wrapped by np.vectorize (without output type): it must be treated like the plain function
+        Dfun = np.vectorize(co.D) if (co.int_first and case["seed"] % 2 == 0) else co.D
         solver = ps.DiffEqSolver(quad, rspline, nr, nth, lNeumannIdx=list(lN), uNeumannIdx=list(uN),
-                                 ddrFactor=lambda x: A, drFactor=co.B, rFactor=co.Cc, ddThetaFactor=co.D, rhoFactor=co.E)
+                                 ddrFactor=lambda x: A, drFactor=co.B, rFactor=co.Cc, ddThetaFactor=Dfun, rhoFactor=co.E)
         # a second live solver with other boundary conditions / degree of exactness (never used): must not influence the first
         decoy = ps.DiffEqSolver(max(1, quad - 1), rspline, nr, nth, lNeumannIdx=list(uN), uNeumannIdx=[], ddrFactor=lambda x: -2.0,
                                 rFactor=lambda x: 1.0)
@@ -327,8 +329,12 @@ def _manufactured_case(case, spl, ps):
     def prog(rank):
         comm = MPI.COMM_WORLD
         phi, rho = _grids(MPI, comm, eta, [1, 1])
-        solver = ps.DiffEqSolver(quad, rspline, nr, nth, lNeumannIdx=lN, uNeumannIdx=uN, ddrFactor=lambda x: A,
-                                 drFactor=lambda x: float(Bp(x)), rFactor=lambda x: float(Cp(x)), ddThetaFactor=lambda x: float(Dp(x)), rhoFactor=lambda x: float(Ep(x)))
+        kwc = dict(ddrFactor=lambda x: A, drFactor=lambda x: float(Bp(x)), rFactor=lambda x: float(Cp(x)), ddThetaFactor=lambda x: float(Dp(x)), rhoFactor=lambda x: float(Ep(x)))
+        if case["seed"] % 2:
+            solver = ps.DiffEqSolver(quad, rspline, nr, nth, lN, uN, **kwc)        # the two mode lists handed over by position (lower boundary first, as documented)
+        else:
+            solver = ps.DiffEqSolver(quad, rspline, nr, nth, lNeumannIdx=lN, uNeumannIdx=uN, **kwc)
+        tables = {}
         # one solver call handles all modes with the SAME rho function; the exact solution differs per mode,
         # so solve mode by mode with the matching right-hand side through a 1-mode trick: rho for mode m
         out = np.empty((nth, nr), dtype=complex)
@@ -336,8 +342,21 @@ def _manufactured_case(case, spl, ps):
             m2 = float(m * m)
             rhs_m = A * phi_s.deriv(2) + Bp * phi_s.deriv(1) + Cp * phi_s - m2 * Dp * phi_s     # = E * rho
             phi.getAllData()[:] = np.nan
-            solver.solveEquationForFunction(phi, lambda x: rhs_m(x) / Ep(x))
+            if case["seed"] % 3 == 0:
+                # a tabulated source: the callable hands out the SAME stored array whenever it is asked for the same points
+                def rho_fn(x, _m=I, _rhs=rhs_m):
+                    key = (_m, np.asarray(x, dtype=float).tobytes())
+                    if key not in tables:
+                        tables[key] = [np.array(_rhs(x) / Ep(x), dtype=float), np.array(_rhs(x) / Ep(x), dtype=float)]
+                    return tables[key][0]
+            else:
+                def rho_fn(x, _rhs=rhs_m):
+                    return _rhs(x) / Ep(x)
+            solver.solveEquationForFunction(phi, rho_fn)
             out[I] = phi.getAllData()[I, 0, :]
+        for key, (handed, kept) in tables.items():
+            if not np.array_equal(handed, kept):
+                raise AssertionError("solveEquationForFunction modified the array its right-hand-side callable returned (mode index %d)" % key[0])
         return out
 
     w = MPI.run_world(1, prog, timeout=300)
